@@ -164,10 +164,22 @@ def run_case(case, observe=None):
                         results.append(False)
 
         total = sum(len(raw) for _, raw in bufs)
-        max_calls = 50 + 20 * (total // max(1, min([case["capacity"], rd["read"]] + [x for x in plan if x > 0] + ([case["packet"]] if case.get("packet") else []))) + 1) * (1 + plan.count(0))
-        st_, box = sim.run(driver, horizon=1e5, name="sender", stop=lambda: len(net.send_calls) > max_calls)
+        min_accept = max(1, min([case["capacity"], rd["read"]] + [x for x in plan if x > 0] + ([case["packet"]] if case.get("packet") else [])))
+        max_calls = 200 + 4 * (total // min_accept + 1) * (1 + plan.count(0))  # a clean transfer needs about total/min_accept sends
+        prog = {"key": None, "t": sim.now}
+
+        def stalled():
+            # hang verdict without waiting for the horizon: nothing moved on the wire for 120 virtual seconds
+            key = (len(net.send_calls), peer.total_received, len(got), len(results))
+            if key != prog["key"]:
+                prog["key"], prog["t"] = key, sim.now
+                return False
+            return sim.now - prog["t"] > 120.0 or len(net.send_calls) > max_calls
+
+        st_, box = sim.run(driver, horizon=1e5, name="sender", stop=stalled)
         if st_ == "stop":
-            return Failure(f"send-runaway:{case['via']}", case, f"{len(net.send_calls)} socket.send calls for {total} bytes", "bounded number of sends")
+            why = "runaway" if len(net.send_calls) > max_calls else "stalled"
+            return Failure(f"send-{why}:{case['via']}", case, f"{len(net.send_calls)} socket.send calls, {len(got) + len(peer.rx)} of {total} bytes at the peer, no progress for 120 virtual s: {sim.blocked_report()[:4]}", "send returns")
         if st_ != "done":
             return Failure(f"send-does-not-return:{case['via']}", case, f"{st_} {sim.blocked_report()}", "send returns")
         if "error" in box:
